@@ -140,7 +140,7 @@ class RawMeshData:
 
     def _prepare_vertices(self):
         for iv in self.id_vertices:
-            v = Vec(self.vertices[iv])
+            v = Vec(self.vertices[iv]).astype(float) # own floating-point copy (integer input would overflow in products)
             if v.size<3: # 2D (or 1D) input: pad with zeros
                 v = Vec(list(v) + [0.]*(3-v.size))
             self.vertices[iv] = v
